@@ -87,7 +87,18 @@ fn yes() -> bool {
     true
 }
 
-pub const FIXED_PATTERNS: [&str; 6] = ["a.{}.log", "arch/{}/a.log", "a.{}.log.gz", "a.{}.zst", "arch/run-{}/a.{}.log", "z{}/a.{}.gz"];
+// (the last two: long directory names outside ASCII - 2- and 3-byte characters - so that any byte offset computed
+// from the end of the path is likely to fall inside a character)
+pub const FIXED_PATTERNS: [&str; 8] = [
+    "a.{}.log",
+    "arch/{}/a.log",
+    "a.{}.log.gz",
+    "a.{}.zst",
+    "arch/run-{}/a.{}.log",
+    "z{}/a.{}.gz",
+    "архив-журналов-приложения-за-прошлые-периоды/журнал.{}.log",
+    "日志归档目录历史记录保存位置/甲乙丙丁戊己庚辛壬癸{}.log",
+];
 pub const T0: i64 = 1_700_000_000;
 
 pub fn roller_strategy(min_count: u32) -> impl Strategy<Value = RollSpec> {
